@@ -66,6 +66,9 @@ def actorIdx (a : String) : Nat := ((a.drop 1).toNat?).getD 0
 def parseOp (t : List String) : Option POp :=
   match t with
   | [_, "newring", n] => do pure (.newRing (← n.toNat?))
+  | [_, "newringb", n, m] => do
+    let k ← n.toNat?
+    pure (if m == "plain" then .newRing k else .newRing 0)
   | a :: "push" :: ud :: rest => do
     let ud ← ud.toNat?
     let link := match rest.getLast? with
@@ -148,6 +151,7 @@ structure ORing where
   sqCount : Nat := 0
   dead : Bool := false      -- crashed
   dropped : Bool := false
+  droppedAt : Nat := 0
 deriving Repr, Inhabited
 
 structure OState where
@@ -222,7 +226,9 @@ def runCase (c : Case) : Verdict := Id.run do
     | .newRing n =>
       let (h', out) := h.step (.newRing n)
       h := h'
-      kWant := match out with | .ringId id => s!"ring {id}" | _ => "invalid"
+      kWant := match out with
+        | .ringId id => s!"ring {id} sq={nextPow2 n} cq={2 * nextPow2 n}"
+        | _ => "invalid"
     | .push ring ud k link =>
       if dropped.contains ring || ring ≥ h.nextRing then kWant := "invalid"
       else
@@ -391,7 +397,11 @@ def runCase (c : Case) : Verdict := Id.run do
     -- =================================== O ===================================
     match op with
     | .newRing n =>
-      if n != 0 then o := { o with rings := o.rings.push { depth := nextPow2 n } }
+      -- (sqpoll / iopoll builders are parsed as `newRing 0`: they must be refused)
+      if n != 0 then
+        o := { o with rings := o.rings.push { depth := nextPow2 n } }
+        if obsHead != "ring" then oErr := some s!"creating a ring with {n} entries failed"
+      else if obsHead != "invalid" then oErr := some "ring creation with zero entries / unsupported setup flags succeeded"
     | .push ring ud k link =>
       if let some r := o.rings[ring]? then
         if !r.dropped && !lost.contains ring then
@@ -508,7 +518,9 @@ def runCase (c : Case) : Verdict := Id.run do
       o := { o with rings := o.rings.map (fun r => { r with dead := true, sqCount := 0 }),
                     fileOpen := o.fileOpen.map (fun _ => false) }
     | .dropRing ring =>
-      if let some r := o.rings[ring]? then o := { o with rings := o.rings.set! ring { r with dropped := true } }
+      if let some r := o.rings[ring]? then
+        if !r.dropped && !lost.contains ring then
+          o := { o with rings := o.rings.set! ring { r with dropped := true, droppedAt := o.now } }
     | .await ring =>
       if obsMain == "unit" then o := { o with waiters := (ring, o.now) :: o.waiters.filter (·.1 != ring) }
     | .awaited ring =>
@@ -527,6 +539,10 @@ def runCase (c : Case) : Verdict := Id.run do
         if obsMain == "wokenerr" then
           if let some r := o.rings[ring]? then
             if !r.dropped then oErr := some "AsyncFd::readable failed on a live ring"
+        if obsMain == "waiting" then
+          if let some r := o.rings[ring]? then
+            if r.dropped && r.droppedAt + tick ≤ o.now && t0 + tick ≤ o.now then
+              oErr := some s!"AsyncFd::readable still pending at {o.now}ns although its ring was dropped at {r.droppedAt}ns"
     | .readable ring =>
       if let some r := o.rings[ring]? then
         if lost.contains ring then pure ()
